@@ -474,6 +474,67 @@ fn atoms(k: StrKind, rng: Option<&mut Rng>) -> Vec<Atom> {
     v
 }
 
+/// Inclusion of another constrained string type (X.680 51.3): `A ::= K (INCLUDES B)`, `K (B)`, `K (FROM (INCLUDES B))` with
+/// `B ::= K (FROM (..))`. The permitted alphabet of A is that of B. Exhaustive over four known-multiplier types x three
+/// alphabets x three spellings x {assignment, component} x {B sorts before A, after A}.
+fn inclusions(rep: &mut Report) {
+    for k in [StrKind::Numeric, StrKind::Printable, StrKind::Visible, StrKind::Ia5] {
+        let alphabets: Vec<(&str, CSet)> = match k {
+            StrKind::Numeric => vec![("\"0\"..\"5\"", (0x30..=0x35).collect()), ("\"19 \"", [0x31, 0x39, 0x20].into_iter().collect())],
+            _ => vec![("\"A\"..\"F\"", (0x41..=0x46).collect()), ("\"abz\"", [0x61, 0x62, 0x7a].into_iter().collect()), ("\"0\"..\"9\" | \"x\"", (0x30..=0x39).chain([0x78]).collect())],
+        };
+        for (text, set) in alphabets {
+            for (form, spell) in [("INCLUDES", "(INCLUDES @)"), ("bare-reference", "(@)"), ("FROM-INCLUDES", "(FROM (INCLUDES @))")] {
+                for component in [false, true] {
+                    for b_first in [true, false] {
+                        let b = if b_first { "Aq0base" } else { "Zq9base" };
+                        let c = spell.replace('@', b);
+                        let a_def = if component { format!("Mq5 ::= SEQUENCE {{ fq1 {} {c} }}", k.asn()) } else { format!("Mq5 ::= {} {c}", k.asn()) };
+                        let src = format!("Mq1 DEFINITIONS AUTOMATIC TAGS ::= BEGIN\n{b} ::= {} (FROM ({text}))\n{a_def}\nEND\n", k.asn());
+                        let run = comp::rasn1(&src);
+                        rep.evaluations += 1;
+                        let comp::Outcome::Ok { generated, warnings } = &run.out else {
+                            rep.count("inclusion_cases[not Ok]", 1);
+                            continue;
+                        };
+                        if !warnings.is_empty() {
+                            rep.count("inclusion_cases[warnings]", 1);
+                            continue;
+                        }
+                        let Ok(mods) = proj::project(generated) else { continue };
+                        let Some(it) = mods.iter().find_map(|m| m.find("Mq5")) else { continue };
+                        let attrs = match (&it.kind, component) {
+                            (Kind::Struct { fields, .. }, true) => fields.first().map(|f| f.attrs.clone()),
+                            (_, false) => Some(it.attrs.clone()),
+                            _ => None,
+                        };
+                        let Some(attrs) = attrs else { continue };
+                        rep.count("alphabets_compared", 1);
+                        rep.count("alphabets_compared[inclusion of a constrained string type]", 1);
+                        rep.nontrivial.insert(hash_str(&src));
+                        let origin = format!("inclusion({},{form},component={component},included-type-sorts-first={b_first})", k.asn());
+                        let verdict = match attrs.from_items() {
+                            None => Some(("annotation-missing", format!("no from(..) although the included type permits only {{{}}}", show(&set)))),
+                            Some(items) => match denote(&items, k) {
+                                Ok((got, _)) if got == set => None,
+                                Ok((got, _)) => Some(("alphabet-differs", format!("from(..) denotes {{{}}}, the included type permits {{{}}}", show(&got), show(&set)))),
+                                Err(e) => Some(("annotation-unreadable", e)),
+                            },
+                        };
+                        if let Some((kind, detail)) = verdict {
+                            rep.violations.push(Violation {
+                                sig: format!("c15|{kind}|inclusion-of-a-constrained-type|{form}|{}", if component { "component" } else { "assignment" }),
+                                what: format!("{a_def} with {b} ::= {} (FROM ({text})): {detail} [{origin}]", k.asn()),
+                                replay: json!({"origin": origin, "sources": [src]}),
+                            });
+                        }
+                    }
+                }
+            }
+        }
+    }
+}
+
 pub fn run(ctx: &Ctx) -> Report {
     let mut rep = Report::new(
         "exploration",
@@ -548,5 +609,7 @@ pub fn run(ctx: &Ctx) -> Report {
         check_batch(chunks[i as usize], &mut local);
         acc.with(|r| r.merge(local));
     });
-    acc.into_inner()
+    let mut rep = acc.into_inner();
+    inclusions(&mut rep);
+    rep
 }
